@@ -36,6 +36,8 @@ def call_impl(metric, ref, pred, r, ps):
             return impl.METRICS[metric](ref, pred, r, ps)
     except ZeroDivisionError:
         return "ZeroDivisionError"
+    except Exception as e:           # any other exception on a well-formed call: reported by the caller
+        return "RAISED:" + type(e).__name__ + ": " + str(e)[:100]
 
 
 def one_case(ctx, ref, pred, r, ps, metric, src, before=None, layouts=None):
@@ -66,6 +68,10 @@ def one_case(ctx, ref, pred, r, ps, metric, src, before=None, layouts=None):
     ctx.count("nontrivial" if nontriv else "trivial")
     ps_given = list(ps) if isinstance(ps, list) else ps
     got = call_impl(metric, ref, pred, r, ps)
+    if isinstance(got, str) and got.startswith("RAISED:"):
+        ctx.violation(f"{metric} on a well-formed call (reference label {r}, prediction labels {ps_given}) raised {got[7:]} instead of returning the value of its definition", inp,
+                      impl=got, key={"metric": metric, "kind": "raises"})
+        return None
     if isinstance(ps, list) and ps != ps_given:
         ctx.violation(f"the metric call changed the caller's list of prediction labels from {ps_given} to {ps} (the next call with that list scores other voxels)", inp,
                       key={"metric": metric, "kind": "caller-list"})
@@ -87,7 +93,7 @@ def one_case(ctx, ref, pred, r, ps, metric, src, before=None, layouts=None):
     if want is None:
         ctx.count("undefined_quotient")
         return
-    if got == "ZeroDivisionError" or not float_is_quotient(float(got), want):
+    if isinstance(got, str) or not float_is_quotient(float(got), want):
         ctx.violation(f"{metric} differs from its set-theoretic definition: got {got!r}, definition gives {want}",
                       inp, impl=repr(got), model=str(want), key={"metric": metric}, observable="Metric value")
         return
@@ -373,7 +379,7 @@ def scale_case(ctx, rec, r, ps, src):
             ctx.case(inp, True)
             ctx.count("scale_oracle_only")
             got = call_impl(metric, ref, pred, r, ps) if sel else call_impl(metric, (ref != 0).astype(np.uint8), (pred != 0).astype(np.uint8), None, None)
-            if got == "ZeroDivisionError" or not float_is_quotient(float(got), want):
+            if isinstance(got, str) or not float_is_quotient(float(got), want):
                 ctx.violation(f"{metric} differs from its set-theoretic definition on a large mask: got {got!r}, definition gives {want} "
                               f"(|X|={nr}, |Y|={np_}, |X∩Y|={i})", inp, impl=repr(got), model=str(want), key={"metric": metric},
                               observable="Metric value")
